@@ -137,12 +137,42 @@ def integrator_cache_search(ctx):
     ctx.oblige("search: integrator steps with caching active == with caching defeated (fresh state before every step), all integrator x system pairs", bad == 0, f"{bad} failures")
 
 
+def recycled_system_search(ctx):
+    """Several system objects created one after the other and applied to ONE state: each must get its own values.  The state-cache key contains id(system), which
+    CPython hands out again once an earlier system has been freed."""
+    import gc
+
+    import mici
+    from mici.states import ChainState
+    st = ChainState(pos=np.array([1.0, 2.0]), mom=np.array([0.5, -0.5]), dir=1)
+    bad = 0
+    ids = set()
+    for k in range(40):
+        c = 1.0 + k
+        system = mici.systems.EuclideanMetricSystem(lambda q, c=c: c * 0.5 * q @ q, grad_neg_log_dens=lambda q, c=c: c * q)
+        recycled = id(system) in ids
+        ids.add(id(system))
+        got, want = float(system.neg_log_dens(st)), c * 0.5 * float(st.pos @ st.pos)
+        ctx.case(("sequential-systems", k, recycled))
+        ctx.count("search:sequential_systems" + (":id_recycled" if recycled else ""))
+        if got != want:
+            key = "stale_value:system_id_recycled" if recycled else "stale_value:sequential_systems"
+            bad += not ctx.is_known(key)
+            ctx.fail(key, f"system object #{k + 1} created after the earlier ones were freed (id recycled: {recycled}) applied to a state the earlier ones were applied to: "
+                     f"neg_log_dens(state) = {got} but a fresh evaluation gives {want}", {"n_systems": k + 1, "pos": st.pos.tolist()})
+            break
+        del system
+        gc.collect()
+    ctx.oblige("search[sequential systems]: up to 40 systems created and freed in turn, each applied to the same state object, value vs fresh evaluation", bad == 0, f"{bad} failures")
+
+
 def run(ctx):
     import mici  # noqa: F401
     ctx.rule = ("model correspondence: random op histories on a mock system decorated with the real decorators; search: random histories on every real system "
                 "class comparing with a fresh state; distinct = distinct (history, op) / (system, integrator)")
     ctx.assume("a method's value depends only on the state variables it (transitively) reads syntactically and on immutable system attributes "
-               "(pure user functions)", "both system objects sharing a state are alive (no id() reuse)", "in-place mutation of arrays returned by cached "
+               "(pure user functions)", "in the model the system objects sharing a state are distinct keys; the implementation keys on id(system), which is recycled after a system is freed - the "
+               "sequential-systems search exercises exactly that (known finding G26)", "in-place mutation of arrays returned by cached "
                "methods or held by other states is outside the model (values are immutable in the model)")
     ctx.trust("translator T4 tie/translate_systems.py (fail-closed; its MRO / resolution validated against live classes)",
               "hand model coq/Model/StateCache.v tied by correspondence through tie/cache_corr.py")
@@ -156,3 +186,4 @@ def run(ctx):
         cache_corr.run(ctx, 40 if not ctx.thorough else 300, 30 if not ctx.thorough else 50)
     real_history_search(ctx)
     integrator_cache_search(ctx)
+    recycled_system_search(ctx)
